@@ -2131,9 +2131,17 @@ impl Fsm {
                 }
             }
         }
+        // The domains the exit sets are computed with. They are computed before the states are exited: exiting records
+        // history values, afterwards a transition to the history of one of its ancestors would get a smaller domain and
+        // the ancestors that were exited would not be entered again.
+        let mut domains: HashMap<TransitionId, StateId> = HashMap::new();
+        for tid in enabledTransitions.iterator() {
+            let domain = self.getTransitionDomain(datamodel, self.get_transition_by_id(*tid));
+            domains.insert(*tid, domain);
+        }
         self.exitStates(datamodel, enabledTransitions);
         self.executeTransitionContent(datamodel, enabledTransitions);
-        self.enterStates(datamodel, enabledTransitions);
+        self.enterStatesWithDomains(datamodel, enabledTransitions, &domains);
         #[cfg(feature = "Trace_Method")]
         self.tracer.exit_method("microstep");
     }
@@ -2298,6 +2306,16 @@ impl Fsm {
     /// ```
     #[allow(non_snake_case)]
     fn enterStates(&mut self, datamodel: &mut dyn Datamodel, enabledTransitions: &List<StateId>) {
+        self.enterStatesWithDomains(datamodel, enabledTransitions, &HashMap::new());
+    }
+
+    #[allow(non_snake_case)]
+    fn enterStatesWithDomains(
+        &mut self,
+        datamodel: &mut dyn Datamodel,
+        enabledTransitions: &List<StateId>,
+        domains: &HashMap<TransitionId, StateId>,
+    ) {
         #[cfg(feature = "Trace_Method")]
         self.tracer.enter_method("enterStates");
         let binding = self.binding;
@@ -2309,6 +2327,7 @@ impl Fsm {
         self.computeEntrySet(
             datamodel,
             enabledTransitions,
+            domains,
             &mut statesToEnter,
             &mut statesForDefaultEntry,
             &mut defaultHistoryContent,
@@ -2563,6 +2582,7 @@ impl Fsm {
         &mut self,
         datamodel: &mut dyn Datamodel,
         transitions: &List<TransitionId>,
+        domains: &HashMap<TransitionId, StateId>,
         statesToEnter: &mut OrderedSet<StateId>,
         statesForDefaultEntry: &mut OrderedSet<StateId>,
         defaultHistoryContent: &mut HashTable<StateId, ExecutableContentId>,
@@ -2583,7 +2603,10 @@ impl Fsm {
                     defaultHistoryContent,
                 );
             }
-            let ancestor = self.getTransitionDomain(datamodel, t);
+            let ancestor = match domains.get(tid) {
+                Some(domain) => *domain,
+                None => self.getTransitionDomain(datamodel, t),
+            };
             for s in self.getEffectiveTargetStates(datamodel, t).iterator() {
                 self.addAncestorStatesToEnter(
                     datamodel,
